@@ -121,6 +121,7 @@ func NewEngine(prog *ssa.Program, cfg Config) *Engine {
 	e := &Engine{Prog: prog, Fset: prog.Fset, TB: smt.NewTable(), Cfg: cfg, Models: map[string]*ssa.Function{},
 		Natives: map[string]NativeFn{}, funcsByName: map[string]*ssa.Function{}, strIntern: map[string]int{}, valIdx: map[*ssa.Function]map[ssa.Value]int{}}
 	registerNatives(e)
+	registerNatives2(e)
 	return e
 }
 
